@@ -163,7 +163,7 @@ func convertIPSet(in []aliyunClient.IPSet) map[string]*networkv1beta1.IP {
 	})
 }
 
-func mergeIPMap(log logr.Logger, remote, current map[string]*networkv1beta1.IP) {
+func mergeIPMap(log logr.Logger, remote, current map[string]*networkv1beta1.IP) map[string]*networkv1beta1.IP {
 	// delete remote not in current
 	for k := range current {
 		_, ok := remote[k]
@@ -184,6 +184,7 @@ func mergeIPMap(log logr.Logger, remote, current map[string]*networkv1beta1.IP) 
 			log.Info("sync eni with remote, add ip to local", "ip", k)
 		}
 	}
+	return current
 }
 
 // sortNetworkInterface by eni's ip desc. We won't delete trunk or rdma card ,we should use those first.
